@@ -261,3 +261,18 @@ Example C14_demo_peer_backwards :
   ok_C14 1 [J 0 (W READY); J 0 (W RUNNING); J 0 FStart; J 0 (W CANCELLING); J 0 (Poll CANCELLING); J 0 FReturn; J 0 (W CANCELLED); J 0 (W DONE)]
          [(0, 7%Z)] [(0, DONE, 7%Z)] (-1)%Z 0 = Some (0, 1).
 Proof. vm_compute. reflexivity. Qed.
+
+(* a direct session closed while jobs are running / queued (close() kills them: CANCELLED rows with the failure output), then a
+   timed search() on the SAME evaluator: accepted, and the counters the evaluator reports (submitted - gathered) are the model's
+   (jobs without a row): 0 after each close - a stale count (here 2 after the first close) is rejected (position 20, code 1) *)
+Example C14_demo_close_then_search :
+  exists g, accept (observed_cfg (-1)) (ginit 2 (Some BEval))
+    [OSubmitCall; OW 0 READY; OW 1 READY; OW 2 READY; OGatherIn; OW 0 RUNNING; OW 1 RUNNING; OStart 0; OStart 1; ORet 0 5; OFin 0; OW 0 DONE; OCollected 0; OGatherOut;
+     OCloseIn; OW 1 CANCELLED; OCollected 1; OW 2 CANCELLED; OCollected 2; OCloseOut; OCounts 0; OReturn; OPoll 1 CANCELLED; ORet 1 6;
+     OAgain (Some BSearch); OSubmitCall; OW 3 READY; OGatherIn; OW 3 RUNNING; OStart 3; OSent0; OW 3 CANCELLING; OPoll 3 CANCELLING; ORet 3 8; OW 3 CANCELLED; OFin 3;
+     OCollected 3; OGatherOut; OCloseIn; OCloseOut; OCounts 0; OReturn] 0 = (g, None) /\
+    phase g = PDone /\ tables_agree 4 (rows g) [(0, DONE, 5%Z); (1, CANCELLED, (-1)%Z); (2, CANCELLED, (-1)%Z); (3, CANCELLED, 8%Z)] = true /\
+  snd (accept (observed_cfg (-1)) (ginit 2 (Some BEval))
+    [OSubmitCall; OW 0 READY; OW 1 READY; OW 2 READY; OGatherIn; OW 0 RUNNING; OW 1 RUNNING; OStart 0; OStart 1; ORet 0 5; OFin 0; OW 0 DONE; OCollected 0; OGatherOut;
+     OCloseIn; OW 1 CANCELLED; OCollected 1; OW 2 CANCELLED; OCollected 2; OCloseOut; OCounts 2] 0) = Some (20, 1).
+Proof. vm_compute. eexists. repeat split. Qed.
